@@ -77,6 +77,8 @@ def oracle(case: dict) -> Outcome:
     n, dt = case["n"], {"f32": torch.float32, "f64": torch.float64}[case["dtype"]]
     u = float(torch.finfo(dt).eps) / 2
     A, lam, V = matgen.make_matrix(n, case["recipe"], dt)
+    if case.get("layout") == "col" and n > 1:
+        A = A.t().contiguous().t()  # same symmetric matrix, column-major memory layout (what .T / linalg.inv / cholesky_inverse hand back)
     scale = float(A.to(D).abs().max())
     if scale == 0.0:
         scale = case["recipe"].get("scale", 1.0)
@@ -281,7 +283,7 @@ def _strategy(nmax: int):
                                  st.floats(-3, 1).map(lambda d_: min(1.0, 10.0 ** (-recipe["logk"] + d_))), st.floats(-3, 1).map(lambda d_: min(1.0, 10.0 ** (-recipe["logk"] + d_)))))
         if n > 16 and dtype == "f64":
             pass
-        return {"n": n, "dtype": dtype, "recipe": recipe, "eps_rel": eps_rel, "root": root, "solver": solver}
+        return {"n": n, "dtype": dtype, "recipe": recipe, "eps_rel": eps_rel, "root": root, "solver": solver, "layout": draw(st.sampled_from(["row", "row", "col"]))}
 
     return case()
 
